@@ -200,6 +200,34 @@ func genC09(t *rapid.T) c09Case {
 		left[i]--
 		c.Order = append(c.Order, i)
 	}
+	// one case in four (one connection): a further session takes the id of a session that is over - a
+	// one-packet exchange that has been answered - while the others are still going on
+	if c.Mode == "mux" && rapid.IntRange(0, 3).Draw(t, "id_taken_again") == 0 {
+		var done []int
+		for i, sc := range c.Scripts {
+			if len(sc.Pkts) == 1 && sc.Seq0 <= 1 && (sc.Kind == "author" || sc.Kind == "acct" || sc.Kind == "authen:pap" || sc.Kind == "authen:pap-wrong") {
+				done = append(done, i)
+			}
+		}
+		if len(done) > 0 {
+			i := rapid.SampledFrom(done).Draw(t, "id_of")
+			late := genC09Script(t, c.World, c.Scripts[i].Session)
+			c.Scripts = append(c.Scripts, late)
+			c.Assign = append(c.Assign, 0)
+			after := 0
+			for k, x := range c.Order {
+				if x == i {
+					after = k + 1
+				}
+			}
+			for range late.Pkts {
+				pos := rapid.IntRange(after, len(c.Order)).Draw(t, "late_turn")
+				c.Order = append(c.Order[:pos], append([]int{len(c.Scripts) - 1}, c.Order[pos:]...)...)
+				// later packets of the late script come after its earlier ones
+				after = pos + 1
+			}
+		}
+	}
 	if c.Mode == "mux" && rapid.Bool().Draw(t, "coalescing") {
 		for range c.Order {
 			c.Coalesce = append(c.Coalesce, rapid.IntRange(0, 2).Draw(t, "coalesce") == 0)
@@ -330,7 +358,7 @@ func runC09(t failer, c c09Case) (overlap bool) {
 		started, finished := map[int]bool{}, map[int]bool{}
 		for k := 0; k < len(c.Order); k++ {
 			i := c.Order[k]
-			if k < len(c.Coalesce) && c.Coalesce[k] && k+1 < len(c.Order) && c.Order[k+1] != i && !d.c.Closed() {
+			if k < len(c.Coalesce) && c.Coalesce[k] && k+1 < len(c.Order) && c.Order[k+1] != i && c.Scripts[c.Order[k+1]].Session != c.Scripts[i].Session && !d.c.Closed() {
 				j := c.Order[k+1]
 				w1, ok1 := sess[i].wire(key)
 				w2, ok2 := sess[j].wire(key)
@@ -456,6 +484,13 @@ func runC09(t failer, c c09Case) (overlap bool) {
 }
 
 func classifyC09(c c09Case, overlap bool) {
+	ids := map[uint32]bool{}
+	for i, sc := range c.Scripts {
+		if c.Mode == "mux" && ids[sc.Session] && i == len(c.Scripts)-1 {
+			ev.Class("id-of-a-finished-session-taken-again")
+		}
+		ids[sc.Session] = true
+	}
 	ev.Class("mode:" + c.Mode)
 	for _, s := range c.Scripts {
 		ev.Class("script:" + s.Kind)
